@@ -181,7 +181,7 @@ def random_cases(ctx, st, pt):
     low = gp.GenCfg(min_len=2, max_len=30, letters=list('AK'), weights=dict(gp.W_SIMPLE), p_res=0.35, p_interval=0.0,
                     p_charge=0.0, p_isotope=0.0, p_static=0.0, p_labile=0.0, p_unknown=0.0, p_tag=0.0, p_alt=0.0,
                     p_nterm=0.3, p_cterm=0.3, p_mult=0.0, max_per_site=1)
-    for i in range(ctx.n(10000, 400000)):
+    for i in range(ctx.n(25000, 400000)):
         T = gp.gen_pep(rng, low if i % 2 else cfg)
         n = len(T.seq)
         a = rng.randrange(n)
@@ -242,7 +242,7 @@ def random_cases(ctx, st, pt):
     res_only = gp.GenCfg(min_len=1, max_len=15, letters=list('AKGSP'), weights={'int': 1, 'unimod-name': 2}, p_res=0.4,
                          p_interval=0, p_charge=0, p_isotope=0, p_static=0, p_labile=0, p_unknown=0, p_nterm=0, p_cterm=0,
                          p_tag=0, p_alt=0, p_mult=0.1)
-    for _ in range(ctx.n(4000, 200000)):
+    for _ in range(ctx.n(10000, 200000)):
         T = gp.gen_pep(rng, res_only)
         n = len(T.seq)
         T_written = T
